@@ -337,6 +337,21 @@ CONFIG = [
                 'self._process_sequence_results': 'process_sequences',
                 's_def.reset': 'seq_reset', 'enumerate': 'enumerate_lines'},
       'cells': {"self.stats['lines_searched']": 'lines_searched'}}),
+    ('tm_init', 'searchkit/search.py', 'ThreadManager.__init__',
+     {'locks': {},
+      'calls': {'threading.Event': 'event_new',
+                'self.event.clear': 'event_clear',
+                'threading.Thread': 'thread_new'},
+      'cells': {'self.running': 'running'}}),
+    ('tm_start', 'searchkit/search.py', 'ThreadManager.start',
+     {'locks': {},
+      'calls': {'self.thread.start': 'thread_start'},
+      'cells': {'self.running': 'running'}}),
+    ('tm_stop', 'searchkit/search.py', 'ThreadManager.stop',
+     {'locks': {},
+      'calls': {'self.event.set': 'event_set',
+                'self.thread.join': 'thread_join'},
+      'cells': {'self.running': 'running'}}),
     ('run_single', 'searchkit/search.py', 'FileSearcher._run_single',
      {'locks': {},
       'calls': {'self.stats.update': 'stats_update',
